@@ -3,6 +3,7 @@ import AdaptaVerif.Model.Bends
 import AdaptaVerif.Check.Hanan
 import AdaptaVerif.Check.OrthGraph
 import AdaptaVerif.Model.AStar
+import Driver.C05OrthVis
 /-!
 Driver mode `c05`.
 
@@ -487,8 +488,9 @@ def checkAStarKernels (c : Case) : CaseResult := Id.run do
 
 def run (_args : List String) : IO UInt32 :=
   runCases (fun c =>
-    if c.tag.startsWith "scene-dirs" then withAStar c (checkSceneVG c)
-    else if c.tag.startsWith "scene" then withAStar c (checkScene c)
+    if c.tag.startsWith "ovis" then Driver.C05OrthVis.checkOvis c
+    else if c.tag.startsWith "scene-dirs" then Driver.C05OrthVis.withOrthVis c (withAStar c (checkSceneVG c))
+    else if c.tag.startsWith "scene" then Driver.C05OrthVis.withOrthVis c (withAStar c (checkScene c))
     else if c.tag == "astar-kernels" then checkAStarKernels c
     else checkKernels c)
 
